@@ -62,7 +62,7 @@ Definition ex_cfg : config :=
   {| cf_scope := SWildcard; cf_aud_exact := false; cf_refresh_scopes := ["offline"]; cf_life_code := 600000%Z;
      cf_life_at := 3600000%Z; cf_life_rt := (-1)%Z; cf_pkce_enforce := false; cf_pkce_enforce_public := false;
      cf_pkce_plain := false; cf_introspect_rt := true; cf_life_dev := 600000%Z; cf_par_life := 300000%Z;
-     cf_par_enforced := false |}.
+     cf_par_enforced := false; cf_dev_contract := false |}.
 Definition ex_client : client :=
   {| cl_public := false; cl_grants := ["authorization_code"; "refresh_token"]; cl_scopes := ["offline"; "photos"]; cl_aud := []; cl_life := None |}.
 Definition ex_authz : authz :=
